@@ -571,6 +571,7 @@ def r6(ctx):
     """the API layer: a drop request reaches the store actor's drop for that document, and success is reported only if it succeeded"""
     from . import apifw
     apifw.check_forwarder(ctx, "C16.R6", "doc_drop", "DropRequest", ["drop_replica(req.doc_id)"], "Ok(DropResponse)", strict=False)
+    apifw.check_client(ctx, "C16.R6", "api::DocsApi::drop_doc", "DropRequest", doc_from="arg.doc_id")
     ctx.floor("C16.R6", 2)
 
 
